@@ -180,7 +180,7 @@ def check_copy_family(rep, scr, tier, seed):
     if pid in ('C01', 'C03', 'C04', 'C05', 'C06'):
         for v in variants: getenv_batch(rep, scr, impls[v], md, consts[v], pid, v, tier, seed)
     if pid == 'C05': printf_report_batch(rep, scr, impls['O1'], consts['O1'], tier, seed)
-    if pid in ('C01', 'C02', 'C03', 'C04', 'C06', 'C08'):
+    if pid in ('C01', 'C02', 'C03', 'C04', 'C05', 'C06', 'C08'):
         for v in variants: sweep_batch(rep, scr, impls[v], consts[v], pid, v, tier, seed, md)
     report_proofs(rep, pr, pid)
     report_mismatches(rep, 'T1')
@@ -363,8 +363,8 @@ def sweep_batch(rep, scr, impl, consts, pid, var, tier, seed, md=None):
     import sweep, random
     rng = random.Random(seed * 13 + 5)
     groups = [('C', sweep.ext_cases(seed, tier, consts, pid))]
-    if pid in ('C01', 'C03', 'C04', 'C08'): groups.append(('C', sweep.fmt_cases(seed, tier, consts)))
-    if pid in ('C01', 'C03', 'C04', 'C06', 'C08'):
+    if pid in ('C01', 'C03', 'C04', 'C05', 'C08'): groups.append(('C', sweep.fmt_cases(seed, tier, consts)))
+    if pid in ('C01', 'C03', 'C04', 'C05', 'C06', 'C08'):
         for loc, locname in (('u8', 'C.UTF-8'), ('c', 'C')):
             cc = []
             for x in gen_conv_cases(seed, tier, consts, loc):
@@ -372,7 +372,7 @@ def sweep_batch(rep, scr, impl, consts, pid, var, tier, seed, md=None):
                 if g is None: continue
                 x.id = 'k' + loc + x.id; x.meta['gd'] = g; x.meta['cls'] = 'sweep-conv'; cc.append(x)
             groups.append((locname, cc))
-    if pid in ('C01', 'C03', 'C04', 'C08'):
+    if pid in ('C01', 'C03', 'C04', 'C05', 'C08'):
         # normalisation / folding with every destination size from 1 to ample: Hangul, table characters, marks
         uc = []; k = 0
         pool = [[0xac01, 0xac01], [0xac00, 0xac01], [0xac00], [0xd7a3, 0x41], [0xe9, 0x41], [0x1e09], [0x41, 0x301, 0x327], [0x1100, 0x1161, 0x11a8], [0x3b1, 0x345], [0xdf], [0x130, 0x49], [0x1f80, 0xfb03]]
